@@ -33,4 +33,25 @@ static int v_failed;
 # define VNATIVE_MAIN(h)
 #endif
 
+/* sodium_misuse() handling.  The harness sets v_misuse_expected before the call.
+ *   CBMC:   the stub asserts that the handler is reached only when expected and ends the path (the real handler aborts);
+ *           VCALL(stmt) asserts after a normal return that no misuse was expected.
+ *   native: the stub longjmps back; VCALL compares what happened with what was expected; VMISUSED() tells the harness
+ *           to skip the postconditions of a normal return. */
+#define VMISUSE_DEFINE VMISUSE_DEFINE_
+#ifdef VNATIVE
+# include <setjmp.h>
+# define VMISUSE_DEFINE_ int v_misuse_expected; static jmp_buf v_jb; static int v_misused; \
+    void sodium_misuse(void) { v_misused = 1; longjmp(v_jb, 1); }
+# define VCALL(stmt) do { v_misused = 0; if (!setjmp(v_jb)) { stmt; } \
+    if (v_misused && !v_misuse_expected) { printf("REPLAY FAILED sodium_misuse called although the arguments are in contract\n"); v_failed = 1; } \
+    if (!v_misused && v_misuse_expected) { printf("REPLAY FAILED call returned although the misuse handler was required\n"); v_failed = 1; } } while (0)
+# define VMISUSED() (v_misused)
+#else
+# define VMISUSE_DEFINE_ int v_misuse_expected; \
+    void sodium_misuse(void) { __CPROVER_assert(v_misuse_expected, "sodium_misuse reached only when the property requires it"); __CPROVER_assume(0); }
+# define VCALL(stmt) do { stmt; __CPROVER_assert(!v_misuse_expected, "call returned although the misuse handler was required"); } while (0)
+# define VMISUSED() (0)
+#endif
+
 #endif
